@@ -2,6 +2,7 @@ package props
 
 import (
 	"fmt"
+	compact_time "github.com/kstenerud/go-compact-time"
 	"math"
 
 	"github.com/cockroachdb/apd/v2"
@@ -68,7 +69,29 @@ func init() {
 			gen.EmitEmptyData = true // zero-length data events inside chunks must be passed on too
 			return &EvCase{Events: gen.Document(t, c15Opts(ctx))}
 		},
-		Fixed: func(ctx *Ctx, report func(c interface{}, err error)) { sweepEventCases(ctx, report, c15Check) },
+		Fixed: func(ctx *Ctx, report func(c interface{}, err error)) {
+			sweepEventCases(ctx, report, c15Check)
+			if ctx.Shard != 0 {
+				return
+			}
+			// time events whose area/location zone was filled in field by field instead of through the
+			// constructor (short name empty, abbreviated area kept as the long name, names that the constructor
+			// would turn into another zone type): what the validator accepts it passes on as it came
+			al := func(short, long string) compact_time.Timezone {
+				return compact_time.Timezone{Type: compact_time.TimezoneTypeAreaLocation, ShortAreaLocation: short, LongAreaLocation: long}
+			}
+			for _, tz := range []compact_time.Timezone{compact_time.TZAtAreaLocation("Europe/Berlin"), compact_time.TZAtAreaLocation("E/Berlin"), al("", "Europe/Berlin"),
+				al("E/Berlin", "E/Berlin"), al("Etc/UTC", "Etc/UTC"), al("Local", "Local"), al("Zulu", "Zulu"), al("Mars/Olympus", "Mars/Olympus"), al("M/Olympus", "Mars/Olympus")} {
+				for _, tm := range []compact_time.Time{compact_time.NewTimestamp(2020, 1, 15, 13, 41, 0, 599000, tz), compact_time.NewTime(23, 59, 59, 0, tz)} {
+					c := &EvCase{Events: []ev.Event{{K: ev.BD}, {K: ev.Version}, {K: ev.List}, {K: ev.Time, T: tm}, {K: ev.End}, {K: ev.ED}}}
+					ctx.Stats.Bulk(1, 1)
+					if err := c15Check(c, ctx); err != nil {
+						report(c, err)
+						return
+					}
+				}
+			}
+		},
 		Check: c15Check,
 	})
 }
